@@ -35,12 +35,17 @@ def exhaustive(L, sizes=(1, 2, 3)):
     return out
 
 
-def random_history(rng, length):
+def random_history(rng, length, pauses=False):
     """biased towards the rare branches: frees in the middle, re-use of exact-fit and partial-fit gaps"""
     hist, live, nxt = [], [], 0
     target = rng.choice([3, 6, 12, 25])
+    paused = False
     for _ in range(length):
         r = rng.random()
+        if pauses and rng.random() < 0.05:
+            paused = not paused
+            hist.append("pause" if paused else "cont")
+            continue
         if live and (len(live) > target or r < 0.42):
             # free: mostly not the newest
             if rng.random() < 0.2:
@@ -112,6 +117,8 @@ def oracle(hist, lines):
             for j in range(idx, idx + n):
                 owner[j] = w[1]
             live[w[1]] = (idx, n)
+        elif w[0] in ("pause", "cont", "nr"):
+            pass
         elif w[0] == "d":
             idx, n = live.pop(w[1])
             for j in range(idx, idx + n):
@@ -186,7 +193,7 @@ def run(ctx, replay):
     fails = vcheck.lean_gate(ctx, ["AdeptProofs.Props.C08"], thms, required=[NS + r for r in REQUIRED])
     exe = vbuild.build("galloc", os.path.join(vbuild.VERIF, "harness", "drv_galloc.cpp"), defines=["ADEPT_INITIAL_STACK_LENGTH=16"])
     builds = [("default", exe)]
-    if ctx.tier == "thorough":
+    if True:
         builds.append(("pausable", vbuild.build("galloc", os.path.join(vbuild.VERIF, "harness", "drv_galloc.cpp"),
                                                 defines=["ADEPT_RECORDING_PAUSABLE", "ADEPT_INITIAL_STACK_LENGTH=16"])))
     ctx.pending = []
@@ -204,6 +211,7 @@ def run(ctx, replay):
     ctx.notes["exhaustive_histories"] = len(ex)
     nrand, rlen = (150, 300) if ctx.tier == "quick" else (1500, 600)
     rnd = [random_history(ctx.rng, rlen) for _ in range(nrand)]
+    rnd_p = [random_history(ctx.rng, rlen, pauses=True) for _ in range(nrand // 2)]
     corpus = load_corpus()
     ctx.pending = []
     bad = 0
@@ -213,13 +221,15 @@ def run(ctx, replay):
                 bad += run_batch(ctx, e, mode, corpus, label)
             bad += run_batch(ctx, e, mode, ex if (mode == "api" or ctx.tier == "thorough" or True) else ex[::7], label)
             bad += run_batch(ctx, e, mode, rnd, label)
+            if label == "pausable":
+                bad += run_batch(ctx, e, mode, rnd_p, label + "+pause")
     ctx.cov["rule"] = ("histories of a1/av n/af n/d/nr over handles: ALL maximal histories of length %d over scalar and block sizes 1..3 "
                        "(exhaustive) + %d random histories of length %d biased to frees in the middle; each run through the public "
                        "register/unregister API and through real adouble/aVector/FixedArray objects; non-trivial = contains a release "
                        "before its last step; distinct = different (mode, op list)" % (L, nrand, rlen))
     ctx.cov["exhaustive"] = False
-    ctx.assumptions += ["destructors release only blocks they own (Legal in GradAllocDefs.lean); pausable builds with objects created "
-                        "while paused are outside this check (see C10 / finding F-09)"]
+    ctx.assumptions += ["destructors release only blocks they own (Legal in GradAllocDefs.lean); registration is independent of "
+                        "pause_recording (pausable build: random pause/continue inside the histories; model ignores them)"]
     if ctx.pending and not ctx.violations:
         # correspondence broke and the sampled histories show no property failure: search harder with the oracle alone
         extra = [random_history(ctx.rng, 1500) for _ in range(300)]
